@@ -437,13 +437,21 @@ fn write_mcnk_chunk<W: Write + Seek>(writer: &mut W, mcnk: &McnkChunk) -> Result
     header.ofs_mclv = 0;
     header.ofs_snd_emitters = 0;
     header.n_snd_emitters = 0;
-    header.multipurpose_field = [0u8; 8]; // ofs_height and ofs_normal will be set when written
+    // With the high_res_holes flag the multipurpose field holds the 8-byte hole bitmap, which
+    // is content, and MCVT/MCNR are located by scanning: keep it. Otherwise it holds
+    // ofs_height and ofs_normal, which are set when the subchunks are written.
+    let holes_in_multipurpose = header.flags.high_res_holes();
+    if !holes_in_multipurpose {
+        header.multipurpose_field = [0u8; 8];
+    }
 
     // Write MCVT (heights) if present
     if let Some(mcvt) = &mcnk.heights {
         let offset = (writer.stream_position()? - mcnk_start) as u32;
         // Update first 4 bytes of multipurpose_field with ofs_height
-        header.multipurpose_field[0..4].copy_from_slice(&offset.to_le_bytes());
+        if !holes_in_multipurpose {
+            header.multipurpose_field[0..4].copy_from_slice(&offset.to_le_bytes());
+        }
         // Write manually instead of using write_chunk due to Vec serialization issues
         writer.write_all(&ChunkId::MCVT.0)?; // Write chunk ID bytes
         let data_size = (mcvt.heights.len() * 4) as u32;
@@ -457,7 +465,9 @@ fn write_mcnk_chunk<W: Write + Seek>(writer: &mut W, mcnk: &McnkChunk) -> Result
     if let Some(mcnr) = &mcnk.normals {
         let offset = (writer.stream_position()? - mcnk_start) as u32;
         // Update last 4 bytes of multipurpose_field with ofs_normal
-        header.multipurpose_field[4..8].copy_from_slice(&offset.to_le_bytes());
+        if !holes_in_multipurpose {
+            header.multipurpose_field[4..8].copy_from_slice(&offset.to_le_bytes());
+        }
         // Write manually due to Vec serialization issues
         writer.write_all(&ChunkId::MCNR.0)?;
         let data_size = (mcnr.normals.len() * 3 + 13) as u32; // 3 bytes per normal + 13 padding
